@@ -593,6 +593,8 @@ class Evaluator(object):
             if isinstance(e, ast.Name) and self.prog.resolve(fi.module, e) is None and not self._enclosing_binds(fi, e.id):
                 raise _Raise("NameError")       # bound neither in the function, nor in an enclosing one, nor at module level, nor a builtin
             return Sym("global:" + dump(e), truthy=True)
+        if isinstance(v, str) and v.startswith("ext:") and not isinstance(e, ast.Constant):
+            return Sym("global:" + dump(e), truthy=True)       # a name of another library reached through a package module: opaque
         return K(v)
 
     def _enclosing_binds(self, fi, name):
@@ -757,6 +759,19 @@ class Evaluator(object):
             if len(args) == 3:
                 return args[2]
             raise _Raise("AttributeError")
+        if fname in ("tuple", "list") and len(args) == 1 and not kwargs and self.prog.resolve(fi.module, f) in (None, "builtin:" + fname):
+            a0 = args[0]
+            if isinstance(a0, K) and isinstance(a0.v, (tuple, list)):
+                return K(tuple(a0.v)) if fname == "tuple" else L([K(x) for x in a0.v])
+            if isinstance(a0, L) and fname == "list":
+                return L(list(a0.elts))
+            if isinstance(a0, K) and not isinstance(a0.v, (str, bytes, dict, set, frozenset)):
+                raise _Raise("TypeError")        # tuple(5), tuple(None): not iterable
+        if fname in ("inspect.getmro", "getmro") and len(args) == 1 and isinstance(args[0], Opaque) and "__mro__" in args[0].attrs:
+            return args[0].attrs["__mro__"]         # an abstract class built by a rule carries its linearisation
+        if fname == "vars" and len(args) == 1 and isinstance(args[0], Opaque) and "__dict__" in args[0].attrs and \
+                self.prog.resolve(fi.module, f) in (None, "builtin:vars"):
+            return args[0].attrs["__dict__"]
         if fname in ("sorted", "list", "tuple") and len(args) == 1 and not kwargs and isinstance(args[0], D) and \
                 self.prog.resolve(fi.module, f) in (None, "builtin:" + fname):
             ks = list(args[0].items)            # the keys of an abstract dictionary (constants), in insertion order / sorted
@@ -922,6 +937,8 @@ class Evaluator(object):
                 return K(any(issubclass(a.pytype, TYPE_NAMES[t]) for t in ts if t in TYPE_NAMES))
             if isinstance(a, Obj):
                 return K(("class:%s.%s" % (fi.module, a.cls)) in ts or a.cls in ts)
+            if self.lenient and isinstance(a, Sym):
+                return Sym("opaque:isinstance(%s, ...)" % a.label)        # undecided: both outcomes are explored
             raise AnalysisError("isinstance on untyped symbol %r" % (a,))
         if fname in ("uuid.uuid4", "uuid.uuid1") and not args and not kwargs:
             # (only the generators themselves: uuid.UUID(int=<something>) is as unique as its argument)
